@@ -13,8 +13,9 @@ TECHNIQUE = ("model-based generation of event histories (Hypothesis) over the re
              "deterministic simulated network; stream-id and delivery invariants checked from the server's and the "
              "handlers' point of view after every event")
 RULE = ("A case is a history over one fake node reached through the real Session (pool = HostConnection for protocol "
-        "v3-v5, HostConnectionPool for v1/v2) whose connections have max_in_flight in {2,3,4,5,8} (302/303 in the "
-        "'grow' part, so that the free-id set has to grow past its initial 300 ids) and orphaned_threshold in "
+        "v3-v5, HostConnectionPool for v1/v2) whose connections have max_in_flight in {2,3,4,5,8} (302-304 in the "
+        "'grow' part, so that the free-id set has to grow past its initial 300 ids; 128/32768 on v1/v2 in the 'v2max' "
+        "part, where 126-130 requests use every stream id up to the protocol maximum 127) and orphaned_threshold in "
         "{1,2,3,100}: events are send (Session.execute_async of a uniquely tagged query, client timeout 0.3/1/5/none), "
         "answer the i-th held request (rows echoing the tag / void / 6 server errors with a scripted retry policy / "
         "never / undecodable body / protocol error / negative length / close / reset), advance the virtual clock "
@@ -243,6 +244,21 @@ def s_case(gran, pvs, grow=False, **kw):
     })
 
 
+def s_v2max():
+    """protocol v1/v2 with the default-sized id space (ids 0..127): enough requests to use every id"""
+    ev = st.one_of(
+        st.tuples(st.just("send"), st.integers(0, 3)),
+        st.tuples(st.just("answer"), st.integers(0, 130), st.sampled_from(["rows", "void", "overloaded", "drop"])),
+        st.tuples(st.just("advance"), st.sampled_from([0.35, 1.1, 2.5])),
+        st.tuples(st.just("burst"), st.sampled_from([2, 5]), st.integers(0, 3)),
+    )
+    return SP.s_case(st, "c09", "blocking", [1, 2], mifs=(128, 32768), thrs=(2, 96, 1000), extra={
+        "poolcfg": st.just({"core": 1, "max": 1, "min_req": 0, "max_req": 100}),
+        "events": st.tuples(st.tuples(st.just("burst"), st.sampled_from([126, 127, 128, 129, 130]), st.integers(0, 3)),
+                            st.lists(ev, max_size=10)).map(lambda t: [list(t[0])] + [list(e) for e in t[1]]),
+    })
+
+
 def parts(tier):
     return [
         hyp_part("v3plus", lambda: s_case("blocking", [3, 4, 4, 5]), interpret, tier, quick=110, thorough=1500,
@@ -251,6 +267,7 @@ def parts(tier):
                  quick_shards=2, thorough_shards=3),
         hyp_part("grow", lambda: s_case("blocking", [3, 4], grow=True), interpret, tier, quick=8, thorough=80,
                  quick_shards=1, thorough_shards=2),
+        hyp_part("v2max", s_v2max, interpret, tier, quick=12, thorough=120, quick_shards=1, thorough_shards=2),
         hyp_part("locks", lambda: s_case("locks", [2, 3, 4, 4, 5], mifs=(3, 3, 4, 4, 5, 8)), interpret, tier, quick=40, thorough=700,
                  quick_shards=1, thorough_shards=3),
     ]
